@@ -27,13 +27,13 @@ const c17Parts = 16
 func (e *C17) ID() string    { return "C17" }
 func (e *C17) Level() string { return "exploration" }
 func (e *C17) Rule() string {
-	return "exhaustive enumeration, split in parts: String() (and Extension / TagName / FromString / Identify*) on all 2^8 values of ImageType, IfdType, tag.Type, xmpns.Namespace, xmpns.Name, isobmff.Brand; all 2^16 values of tag.ID, CameraMake, Orientation, Flash, MeteringMode, ExposureMode, ExposureProgram, Compression and of the eight Canon int16 enums (negative half included); IfdType.TagName over all 256 IfdType x all 65536 ids; CameraModel (and the Canon/Apple/Nikon/Sony model types) over [0, 0x60000) plus random uint32 (thorough). Oracle: no panic; each documented value maps to its documented name and every other value to the documented fallback, per tables written in the harness from the doc comments and the Exif/exiftool value lists they cite; FromString(String(v)) == v for documented image types (also by '.'+extension, any case) and IdentifyNamespace(String(ns)) == ns for documented XMP namespace prefixes. Distinct = distinct (type, returned string) pairs observed."
+	return "every result is also kept as returned and re-read after later calls (it must not change); exhaustive enumeration, split in parts: String() (and Extension / TagName / FromString / Identify*) on all 2^8 values of ImageType, IfdType, tag.Type, xmpns.Namespace, xmpns.Name, isobmff.Brand; all 2^16 values of tag.ID, CameraMake, Orientation, Flash, MeteringMode, ExposureMode, ExposureProgram, Compression and of the eight Canon int16 enums (negative half included); IfdType.TagName over all 256 IfdType x all 65536 ids; CameraModel (and the Canon/Apple/Nikon/Sony model types) over [0, 0x60000) plus random uint32 (thorough). Oracle: no panic; each documented value maps to its documented name and every other value to the documented fallback, per tables written in the harness from the doc comments and the Exif/exiftool value lists they cite; FromString(String(v)) == v for documented image types (also by '.'+extension, any case) and IdentifyNamespace(String(ns)) == ns for documented XMP namespace prefixes. Distinct = distinct (type, returned string) pairs observed."
 }
 func (e *C17) Assumptions() []string {
 	return []string{"unexported stringers (box types, JPEG markers) are reachable only through logging and are exercised by C15",
 		"for map-based stringers without a documented fallback only the documented members and the absence of panics are asserted"}
 }
-func (e *C17) Exhaustive(tier string) bool    { return true }
+func (e *C17) Exhaustive(tier string) bool   { return true }
 func (e *C17) MinNontrivial(tier string) int { return 300 }
 
 type c17job struct {
@@ -59,7 +59,31 @@ func c17str(c *core.Ctx, typ string, v any, f func() string) (string, bool) {
 		return "", false
 	}
 	c.Rec.SigHash(core.HashStr(typ + "|" + s))
+	c17retain(c, typ, v, s)
 	return s, true
+}
+
+// A returned string must stay what it was: the last 32 results are kept exactly as returned,
+// next to a private copy, and re-read after later calls (a formatter that builds its result in
+// a shared scratch buffer returns strings that change under the caller's feet).
+type c17kept struct {
+	typ, val, got, copy string
+}
+
+var (
+	c17ring [32]c17kept
+	c17pos  int
+)
+
+func c17retain(c *core.Ctx, typ string, v any, s string) {
+	for _, k := range []int{(c17pos + 31) % 32, (c17pos + 1) % 32, (c17pos + 16) % 32} {
+		if e := c17ring[k]; e.typ != "" && e.got != e.copy {
+			c.Rec.Violation("string:mutated:"+e.typ, fmt.Sprintf("the string returned by %s(%s) was %q and reads %q after later calls (last call: %s(%v))", e.typ, e.val, e.copy, e.got, typ, v), map[string]any{"type": e.typ, "value": e.val})
+			c17ring[k] = c17kept{}
+		}
+	}
+	c17ring[c17pos] = c17kept{typ: typ, val: fmt.Sprint(v), got: s, copy: strings.Clone(s)}
+	c17pos = (c17pos + 1) % 32
 }
 
 func c17want(c *core.Ctx, typ string, v any, got, want string) {
@@ -73,7 +97,7 @@ var (
 		"image/x-nikon-nef", "image/x-panasonic-raw", "image/x-sony-arw", "image/x-canon-crw", "image/x-gopro-gpr", "image/x-canon-cr3", "image/x-canon-cr2", "image/vnd.adobe.photoshop",
 		"application/rdf+xml", "image/avif", "image/x-portable-pixmap", "image/jp2", "image/svg+xml", "image/magick"}
 	imageTypeExts = []string{"", "jpg", "png", "gif", "bmp", "webp", "heif", "RAW", "TIFF", "DNG", "NEF", "RW2", "ARW", "CRW", "GPR", "CR3", "CR2", "PSD", "XMP", "avif", "ppm", "jp2", "svg", "magick"}
-	ifdTypeNames   = []string{"UnknownIfd", "Ifd", "Ifd/SubIfd", "Ifd/Exif", "Ifd/GPS", "Ifd/Iop", "Ifd/Exif/Makernote", "Ifd/DNGAdobeData", "Ifd/Exif/Makernote", "Ifd/Exif/Makernote", "Ifd/Exif/Makernote",
+	ifdTypeNames  = []string{"UnknownIfd", "Ifd", "Ifd/SubIfd", "Ifd/Exif", "Ifd/GPS", "Ifd/Iop", "Ifd/Exif/Makernote", "Ifd/DNGAdobeData", "Ifd/Exif/Makernote", "Ifd/Exif/Makernote", "Ifd/Exif/Makernote",
 		"Ifd/Exif/Makernote", "Ifd/SubIfd0", "Ifd/SubIfd1", "Ifd/SubIfd2", "Ifd/SubIfd3", "Ifd/SubIfd4", "Ifd/SubIfd5", "Ifd/SubIfd6", "Ifd/SubIfd7"}
 	tagTypeNames = map[int]string{0: "Unknown", 1: "BYTE", 2: "ASCII", 3: "SHORT", 4: "LONG", 5: "RATIONAL", 6: "Unknown", 7: "UNDEFINED", 8: "SSHORT", 9: "SLONG", 10: "SRATIONAL", 11: "FLOAT", 12: "DOUBLE", 0xf0: "_ASCII_NO_NUL", 0xf1: "IFD"}
 	makeNames    = []string{"", "Acer", "Agfa", "Aiptek", "Apple", "Asus", "BenQ", "Canon", "Casio", "DJI", "FujiFilm", "Ge", "Genius", "Google", "GoPro", "Hasselblad", "HP", "Hitachi", "HTC", "Huawei", "Insta360",
@@ -101,7 +125,7 @@ var (
 	canonAENames    = map[int]string{0: "Normal AE", 1: "Exposure Compensation", 2: "AE Lock", 3: "AE Lock + Exposure Compensation", 4: "No AE"}
 	canonAFNames    = map[int]string{0: "Off (Manual Focus)", 1: "AF Point Expansion (surround)", 2: "Single-point AF", 4: "Auto", 5: "Face Detect AF", 6: "Face + Tracking", 7: "Zone AF", 8: "AF Point Expansion (4 point)",
 		9: "Spot AF", 10: "AF Point Expansion (8 point)", 11: "Flexizone Multi (49 point)", 12: "Flexizone Multi (9 point)", 13: "Flexizone Single", 14: "Large Zone AF"}
-	nsNames = []string{"Unknown", "aux", "crs", "darktable", "dc", "exif", "exifEX", "lr", "photoshop", "pmi", "rdf", "stDim", "stEvt", "stRef", "tiff", "x", "xap", "xapMM", "xml", "xmlns", "xmp", "xmpDM", "xmpMM"}
+	nsNames   = []string{"Unknown", "aux", "crs", "darktable", "dc", "exif", "exifEX", "lr", "photoshop", "pmi", "rdf", "stDim", "stEvt", "stRef", "tiff", "x", "xap", "xapMM", "xml", "xmlns", "xmp", "xmpDM", "xmpMM"}
 	knownTags = []struct {
 		ifd  ifds.IfdType
 		id   uint16
